@@ -35,9 +35,10 @@ scratch copy of /repo/pdfminer, the pinned suite still passes there (216 passed)
 then the property's check runs with VERIF_REPO=<copy>. None of them is ever applied to /repo.
 
 Each meta.json names a /repo commit the patch applies to with `git apply` (`applies_to_repo_commit`); later repairs in
-/repo touched some of the patched lines, so C13-c and C18-c no longer apply to the current head (C02-g, C03-f and C18-b
-still apply with `patch -p1`), and C15-d is no longer a defect there: the repair cdc58ca (image size and depth are
-checked before export) closes the path it used. Their recorded verdicts are from the commit they were written for.
+/repo touched some of the patched lines (the rewrite of read_xref_from, the image-export checks), so a few patches no
+longer apply to the current head (C02-j, C02-p, C02-q, C13-c, C13-h, C18-c; C02-g, C03-f and C18-b still apply with
+`patch -p1`), and C15-d is no longer a defect there: the repair cdc58ca (image size and depth are checked before export)
+closes the path it used. Their recorded verdicts are from the commit they were written for.
 
 %d changes; %d are caught by the quick tier of their property's check (%d of them only after the check was strengthened, see below).
 
